@@ -53,7 +53,7 @@ structure Layout where
   fines : List Int := []
   segnos : List Int := []
   dalsegnos : List Int := []
-  deriving Repr, Inhabited
+  deriving Repr, Inhabited, DecidableEq
 
 /-- the dict `boundaries[t]` (key present = flag set / `some`) -/
 structure BInfo where
@@ -142,6 +142,11 @@ def addTo (i : Nat) (ds : List (Tag × Dest)) (info : List SegInfo) : List SegIn
 def setTy (i : Nat) (ty : SegType) (info : List SegInfo) : List SegInfo :=
   modAt i (fun s => { s with ty := ty }) info
 
+/-- `if type != "leap_end": type = "leap_start"` (to-coda; repaired behaviour, fixes/C09-7): a segment that is
+itself the target of a jump stays a leap destination -/
+def keepLeapEnd (i : Nat) (info : List SegInfo) : List SegInfo :=
+  modAt i (fun s => { s with ty := if s.ty = .leapEnd then .leapEnd else .leapStart }) info
+
 /-- the `for volta_number in range(10)` scan over consecutive brackets -/
 def voltaScan (tb : BTable) (times : List Int) (i : Nat) : Nat → BState → Option BState
   | 0, st => some st
@@ -218,7 +223,7 @@ def stToCoda (L : Layout) (times : List Int) (i : Nat) (b : BInfo) (idSe : Dest)
     | none => none
     | some ct => match idOf times ct with
       | none => none
-      | some d => some { st with info := setTy i .leapStart (addTo i [(Tag.plain, idSe), (Tag.nav2, d)] st.info) }
+      | some d => some { st with info := keepLeapEnd i (addTo i [(Tag.plain, idSe), (Tag.nav2, d)] st.info) }
   else some st
 
 /-- da capo (target = first point) and dal segno (target = first segno) -/
@@ -282,14 +287,18 @@ def insVolta (x : Nat × Nat) : List (Nat × Nat) → List (Nat × Nat)
   | [] => [x]
   | y :: ys => if voltaLe y x then y :: insVolta x ys else x :: y :: ys
 
-/-- the "clean up and ORDER" block: `(to, await_to)` -/
-def cleanTo (raw : List (Tag × Dest)) : Option (List Dest × List Dest) := do
+/-- the `Navigation1_` destinations (da capo / dal segno) among the raw ones -/
+def nav1Of (raw : List (Tag × Dest)) : List Dest :=
+  raw.filterMap fun p => match p.1 with
+    | .nav1 => some p.2
+    | _ => none
+
+/-- the "clean up and ORDER" block without the treatment of a jump back: `(to, await_to)` -/
+def cleanToBase (raw : List (Tag × Dest)) : Option (List Dest × List Dest) := do
   let plain := raw.filterMap fun p => match p.1 with
     | .plain => some p.2
     | _ => none
-  let nav1 := raw.filterMap fun p => match p.1 with
-    | .nav1 => some p.2
-    | _ => none
+  let nav1 := nav1Of raw
   let nav2 := raw.filterMap fun p => match p.1 with
     | .nav2 => some p.2
     | _ => none
@@ -308,12 +317,47 @@ def cleanTo (raw : List (Tag × Dest)) : Option (List Dest × List Dest) := do
   let plain' := (plainIdx.map Dest.seg).filter fun d => !volta.contains d
   some (volta ++ plain' ++ nav1, nav2)
 
-def buildSegs (times : List Int) (info : List SegInfo) : List Int → List SegInfo → Option (List Seg)
-  | s :: e :: rest, inf :: infs => do
-    let (to, aw) ← cleanTo inf.to
-    let tl ← buildSegs times info (e :: rest) infs
+/-- is the destination ahead of segment `own` (`d > own_id` on the id strings; END never is: it is kept last) -/
+def Dest.ahead (own : Nat) : Dest → Bool
+  | .seg j => own < j
+  | .fin => false
+
+/-- the "clean up and ORDER" block for segment `own`: `(to, await_to)`.  When the segment ends with a da capo /
+dal segno, the music behind it is reached only after the jump (repaired behaviour, fixes/C09-6):
+volta ++ plain not ahead ++ navigation1 ++ plain ahead ++ END -/
+def cleanTo (own : Nat) (raw : List (Tag × Dest)) : Option (List Dest × List Dest) := do
+  let plain := raw.filterMap fun p => match p.1 with
+    | .plain => some p.2
+    | _ => none
+  let nav1 := nav1Of raw
+  let nav2 := raw.filterMap fun p => match p.1 with
+    | .nav2 => some p.2
+    | _ => none
+  let voltaRaw ← raw.foldr (fun p acc => match acc with
+    | none => none
+    | some l => match p.1, p.2 with
+      | .volta lb, .seg j => some ((lb, j) :: l)
+      | .volta _, .fin => none
+      | _, _ => some l) (some [])
+  let jumpsBack := !nav1.isEmpty
+  let hasFin := plain.contains .fin || nav1.contains .fin
+  let nav1 := if hasFin then nav1 ++ [Dest.fin] else nav1
+  let plainIdx := plain.foldl (fun acc d => match d with
+    | .seg j => insSorted j acc
+    | .fin => acc) []
+  let volta := (voltaRaw.foldl (fun acc x => insVolta x acc) []).map fun x => Dest.seg x.2
+  let plain' := (plainIdx.map Dest.seg).filter fun d => !volta.contains d
+  if jumpsBack then
+    some (volta ++ plain'.filter (fun d => !d.ahead own) ++
+      (nav1.filter (· ≠ Dest.fin) ++ plain'.filter (fun d => d.ahead own) ++ nav1.filter (· = Dest.fin)), nav2)
+  else some (volta ++ plain' ++ nav1, nav2)
+
+def buildSegs (times : List Int) (info : List SegInfo) : Nat → List Int → List SegInfo → Option (List Seg)
+  | i, s :: e :: rest, inf :: infs => do
+    let (to, aw) ← cleanTo i inf.to
+    let tl ← buildSegs times info (i + 1) (e :: rest) infs
     some ({ start := s, stp := e, to := to, await := aw, ty := inf.ty } :: tl)
-  | _, _ => some []
+  | _, _, _ => some []
 
 /-- ending numbers the model covers: one decimal digit (the code sorts `"<n>_Volta_<ID>"` strings and
 cuts 8 characters; with two digits it produces ids that do not exist) -/
@@ -328,7 +372,7 @@ def mkSegments (L : Layout) : Option (List Seg) :=
   let n := times.length - 1
   match procAll L tb times 0 times { info := List.replicate n {} } with
   | none => none
-  | some st => buildSegs times st.info times st.info
+  | some st => buildSegs times st.info 0 times st.info
 
 /-! ## 2. Paths -/
 
